@@ -40,11 +40,34 @@ def tok_class(t):
     return t
 
 
-def layout(lines, blanks, eol="\n", tail="", qmark=False, blank_lines=None, blank_fill=""):
+TIGHT_WORDS = set("PRINT IF THEN ELSE FOR TO STEP NEXT GOTO GOSUB ON DIM READ INPUT LINE LET AND OR NOT END STOP RETURN RESTORE CLS "
+                  "SOUND POKE PALETTE CMP RGB HSCREEN HCLS HCOLOR WIDTH LOCATE ATTR PSET PRESET HBUFF CLEAR TRON TROFF".split())
+
+
+def tight_ok(left, right):
+    """A word/word boundary that needs no blank in Color BASIC: keyword next to keyword or number (GOTO10, 1TO5, THENPRINT,
+    PALETTECMP).  Keyword/identifier boundaries keep their blank (the property says so), and so do boundaries where
+    dropping it could merge into another token (hex digits, an exponent E, a name the keyword could be glued to)."""
+    lk, rk = left in TIGHT_WORDS, right in TIGHT_WORDS
+    if lk and rk:
+        return True
+    if lk and right[:1].isdigit():
+        return True
+    if rk and left[-1:].isdigit() and not left.startswith("&") and right[0] not in "E":
+        return all(c.isdigit() or c == "." for c in left)
+    return False
+
+
+def layout(lines, blanks, eol="\n", tail="", qmark=False, blank_lines=None, blank_fill="", tight=False):
     out = []
     k = 0
     for li, toks in enumerate(lines):
         toks2 = [("?" if (qmark and t == "PRINT") else t, g) for t, g in toks]
+        if tight:
+            def hexish(i):        # the digits before this boundary belong to a hex literal (&H1 AND: &H1AND would read 1A)
+                return i >= 2 and (toks2[i - 2][0] in ("H", "&H") or toks2[i - 1][0].startswith("&"))
+            toks2 = [(t, "soft" if (g == "req" and i and not hexish(i) and tight_ok(toks2[i - 1][0], t)) else g)
+                     for i, (t, g) in enumerate(toks2)]
         # '?' is not word-like: the boundary after it may lose its blank
         def b(i, gap, base=k):
             return blanks(base + i, gap)
@@ -196,6 +219,7 @@ def run_case(case):
             tbl = [rng.choice([0, 1, 2]) for _ in range(ngaps)]
             variants.append(("random%d" % r, dict(blanks=lambda i, g, tbl=tbl: tbl[i])))
         one = lambda i, g: 1 if g in ("req", "soft") else 0
+        variants.append(("tight-keywords", dict(blanks=lambda i, g: 1 if g == "req" else 0, tight=True)))
         variants.append(("qmark", dict(blanks=one, qmark=True)))
         variants.append(("cr", dict(blanks=one, eol="\r")))
         variants.append(("crlf", dict(blanks=one, eol="\r\n")))
@@ -225,7 +249,7 @@ def run_case(case):
         if name.startswith("gap"):
             gi = int(name[3:].split("=")[0])
             sig_gap = next(g for g in gaps if g[0] == gi)
-        elif "blanks" in kw and name not in ("qmark", "cr", "crlf", "nul", "blank-lines") and not name.startswith("blanks-only-lines"):
+        elif "blanks" in kw and name not in ("qmark", "cr", "crlf", "nul", "blank-lines", "tight-keywords") and not name.startswith("blanks-only-lines"):
             for g in gaps:
                 nb = kw["blanks"](g[0], g[3])
                 dflt = 1 if g[3] in ("soft", "req") else 0
